@@ -55,6 +55,28 @@ func planC19(g *Gen, tier string) GenOutput {
 			bump(res.Stats, "exhaustive")
 		}
 	}
+	// Shift returns a copy: edits of the result are not visible in the source and vice versa
+	for n := 1; n <= maxRows; n++ {
+		for _, p := range []int64{0, 1, -1, int64(n), int64(-n)} {
+			a := Col{Key: "a", Name: "a", Data: []Cell{}}
+			for i := 0; i < n; i++ {
+				if i%2 == 1 {
+					a.Data = append(a.Data, NilCell())
+				} else {
+					a.Data = append(a.Data, IntCell("int", int64(i+1)))
+				}
+			}
+			f := mkFrame(a)
+			c1, c2, c3 := StrCell("written"), IntCell("int", 0), IntCell("int", 99)
+			ops := []Op{{K: "shift", F: 0, N: p},
+				{K: "setcell", F: 1, S1: "a", N: 0, Cell: &c1},
+				{K: "fillna", F: 0, Cell: &c2},
+				{K: "appendrow", F: 1, Row: []KV{{K: "a", V: c3}}},
+				{K: "droprow", F: 0, N: 0}}
+			res.Hists = append(res.Hists, RunHist(fmt.Sprintf("copy-independence rows=%d p=%d", n, p), []Frame{f}, ops))
+			bump(res.Stats, "copy-independence")
+		}
+	}
 	nrand := scale(tier, 200, 3000)
 	for i := 0; i < nrand; i++ {
 		f := g.frame(generalSpec)
